@@ -145,7 +145,7 @@ UNIT = {
      'rewrites': [
         {'rule': 'R1', 'find': 'let mut byte = self.read_byte()?;', 'replace': 'let ghost p0 = self.pos as int; let mut byte = self.read_byte()?;'},
         {'rule': 'R1', 'regex': r'(?<!mut )byte = self\.read_byte\(\)\?;',
-         'replace': 'proof { if self.pos == self.buf@.len() { lemma_skip(self.buf@, p0, self.pos as int, !DEV_HEX_NUL_NOT_SKIPPED()); lemma_skip_nul(self.buf@, p0); } } byte = self.read_byte()?;'},
+         'replace': 'proof { if self.pos == self.buf@.len() && hex_ws_iso(byte) { lemma_skip(self.buf@, p0, self.pos as int, !DEV_HEX_NUL_NOT_SKIPPED()); lemma_skip_nul(self.buf@, p0); } } byte = self.read_byte()?;'},
         {'rule': 'R1', 'find': 'Ok(byte)', 'replace': AFTER_WS_LOOP + 'Ok(byte)'},
      ]},
   'HexStringLexer::next_hex_byte': {'kind': 'fn', 'file': F, 'container': HL, 'name': 'next_hex_byte', 'props': ['C03', 'C01'],
